@@ -103,6 +103,9 @@ var nativeHandlers = map[string]nativeHandler{
 		return i.importNative(reflect.ValueOf(tax.AllAddonDefs()))
 	},
 	"(github.com/invopop/gobl/cbc.Key).Validate": func(i *interpreter, args []value) value {
+		if _, concrete := args[0].(string); !concrete {
+			return notHandled{} // symbolic key: the real code runs
+		}
 		if err := cbc.Key(strArg(args[0])).Validate(); err != nil {
 			return i.opaqueError(err.Error(), iface{})
 		}
